@@ -310,7 +310,7 @@ def ref_for(draw, style, timestamps, m, name="ref"):
 @st.composite
 def dejitter_cases(draw):
     style = draw(gen.STYLES_ARITH)
-    spec = draw(st.one_of(gen.interval_tier(style=style, label=gen.AB), gen.point_tier(style=style, label=gen.AB)))
+    spec = draw(st.one_of(gen.interval_tier(style=style, label=gen.ABE), gen.point_tier(style=style, label=gen.ABE)))
     m = draw(_mvals(style))
     ts = sorted({t for e in spec["entries"] for t in e[:-1]})
     return {"tier": spec, "ref": draw(ref_for(style, ts, m)), "m": m,
@@ -320,10 +320,11 @@ def dejitter_cases(draw):
 @st.composite
 def align_cases(draw):
     style = draw(gen.STYLES_ARITH)
-    spec = draw(gen.textgrid(style=style, max_tiers=3, label=gen.AB))
+    spec = draw(gen.textgrid(style=style, max_tiers=3, label=gen.ABE))
     m = draw(_mvals(style))
     ts = sorted({t for tr in spec["tiers"] for e in tr["entries"] for t in e[:-1]})
-    ref = draw(ref_for(style, ts, m, name="ref"))
+    refname = draw(st.sampled_from(["ref", spec["tiers"][0]["name"] + "s", "x" + spec["tiers"][-1]["name"]]))  # another tier's name may be part of it
+    ref = draw(ref_for(style, ts, m, name=refname))
     hi = max(spec["maxT"], ref["maxT"])
     ref["minT"], ref["maxT"] = spec["minT"], hi
     for t in spec["tiers"]:
@@ -331,7 +332,7 @@ def align_cases(draw):
     spec["maxT"] = hi
     pos = draw(st.integers(0, len(spec["tiers"])))
     spec["tiers"].insert(pos, ref)
-    return {"tg": spec, "ref": "ref", "m": m}
+    return {"tg": spec, "ref": refname, "m": m}
 
 
 @st.composite
